@@ -567,6 +567,30 @@ fn scripted_bulk_sets(w: &mut Writer) {
     env_bulk(w, 9, TICK, 1_000_000, &calls);
 }
 
+/// books with GAPS: published levels are fixed tick offsets from the touch, not a list of the
+/// populated ones (levels 1-2 and 4-5 empty on both sides, deeper ones populated; one-sided gaps)
+fn scripted_gap_sets(w: &mut Writer) {
+    for tick in [1u32, 2, 5] {
+        let c = 500 * tick;
+        let calls = vec![
+            EnvCall::Place { bid: true, vol: 3, price: Some(c - tick) },
+            EnvCall::Place { bid: false, vol: 4, price: Some(c + tick) },
+            EnvCall::Place { bid: true, vol: 5, price: Some(c - 4 * tick) },
+            EnvCall::Place { bid: false, vol: 6, price: Some(c + 4 * tick) },
+            EnvCall::Step,
+            EnvCall::Place { bid: true, vol: 7, price: Some(c - 7 * tick) },
+            EnvCall::Place { bid: false, vol: 2, price: Some(c + 10 * tick) },
+            EnvCall::Step,
+            EnvCall::Place { bid: false, vol: 1, price: Some(c + 2 * tick) },
+            EnvCall::Cancel { id: 0 },
+            EnvCall::Step,
+            EnvCall::Cancel { id: 3 },
+            EnvCall::Step,
+        ];
+        env_scripted(w, 70 + tick as u64, tick, 0, 100, &calls);
+    }
+}
+
 /// many distinct populated price levels per side, for tick sizes above 1 too
 fn scripted_ladder_sets(w: &mut Writer) {
     for (tick, n) in [(1u32, 40u32), (2, 40), (5, 36), (2, 12)] {
@@ -943,6 +967,7 @@ pub fn c19(tier: &str) -> i32 {
     let _ = n_deep;
     scripted_env_sets(&mut w);
     scripted_ladder_sets(&mut w);
+    scripted_gap_sets(&mut w);
     w.f.flush().unwrap();
     out.set("states", json!(w.n));
     drop(w);
